@@ -133,6 +133,10 @@ def write(handle:IO, anno:GenomicAnnotation) -> None:
             records = tx_model.cds + tx_model.exon
             records.sort()
             records.extend(tx_model.utr)
+            # five_prime_utr / three_prime_utr records (Ensembl style) that do
+            # not stem from splitting a generic UTR record
+            records.extend(x for x in tx_model.five_utr + tx_model.three_utr
+                if x not in tx_model.utr)
             records = tx_model.selenocysteine + records
             for record in records:
                 handle.write(to_gtf_record(record) + '\n')
